@@ -1,78 +1,46 @@
 """C01 — acceptance; determinise / eps-removal / minimise / copy keep the language."""
 import falib
-from common import cq, chunks
+import fa_engine
+from props._fa_common import TRUSTED, ASSUMPTIONS, TECHNIQUE
 
 PROP = "C01"
 LEVEL = "proof"
-THEOREMS = {"Properties.C01": ["C01_accepts"]}
-LEVEL_TEXT = ("Machine-checked Coq theorems (no axioms) state the property for the Gallina model of the automaton algorithms for all "
-              "automata and words; the model is tied to /repo on every run by differential correspondence on accepts bits and by a "
-              "proved-sound equivalence checker applied to the automata pyformlang returns.")
-LEVEL_NOTE = ("Trusted: Coq kernel; hand-written model (validated, not derived from source); Python harness. The theorem is about the model; "
-              "values restricted to ints/strings.")
-TECHNIQUE = "Rocq/Coq proof about an executable Gallina model + differential correspondence (model evaluated by vm_compute inside Coq)"
-TRUSTED = ["Coq 8.16.1 kernel (coqc, vm_compute for model evaluation)",
-           "hand-written Gallina model coq/Model/Enfa.v tied to /repo by the differential correspondence in harness/props/c01.py",
-           "Python harness (generators, accessors through the public API, Coq-output parser)"]
-ASSUMPTIONS = ["state and symbol values are ints or strings (interned to N for the model)",
-               "correspondence is differential testing: it validates the model against the code, the universal claim is the Coq theorem"]
-RULE = ("random epsilon-NFA/NFA/DFA (1-5 states, 1-3 symbols, profiles sparse/dense/eps/epscycle/dead/unreach/multi, "
-        "plain/int/adversarial names) x all words up to length 3 (quick) / 4 (thorough) over alphabet + one foreign symbol; "
-        "non-trivial = at least 2 transitions, a start and a final state; distinct by canonical JSON")
-EXPLANATION = ("Theorems about the Gallina model (Properties/C01.v) + differential correspondence model vs pyformlang "
-               "on accepts bits and, for each transformer, certified language equivalence (Oracle/EnfaEquivSound.v) "
-               "between the input and the automaton pyformlang returns, plus the advertised shape.")
+THEOREMS = {"Properties.C01": ["C01_accepts", "C01_accepts_nfa", "C01_accepts_dfa", "C01_remove_eps",
+                               "C01_determinize", "C01_equiv_certificate"]}
+LEVEL_TEXT = ("Machine-checked Coq theorems (no axioms, all automata, all words): accepts = existence of a run (three class loops), "
+              "remove_epsilon_transitions and the subset construction preserve the language and have the advertised shape. "
+              "minimize and copy have no universal theorem yet: every automaton pyformlang returns is certified language-equal to its "
+              "input by the proved-sound equivalence checker (instance-level certificate). Model tied to /repo by correspondence on every run.")
+LEVEL_NOTE = ("Trusted: Coq kernel; hand-written model (validated by correspondence, not derived from source); Python harness. "
+              "Theorems are about the model; merged-state *names* are not modelled (subsets are the model's states), so a name collision "
+              "in pyformlang shows up as a language difference found by the correspondence leg.")
+RULE = ("random epsilon-NFA/NFA/DFA (1-5 states, 1-3 symbols; profiles sparse/dense/eps/epscycle/dead/unreach/multi; plain/int/adversarial "
+        "names incl. merged-name look-alikes) x {accepts on all words up to length 3|4 over alphabet + a foreign symbol, to_deterministic, "
+        "remove_epsilon_transitions, minimize, copy}; non-trivial = at least 2 transitions, a start and a final state; distinct by canonical JSON of (op, automaton)")
+EXPLANATION = ("Theorems about the Gallina model (Properties/C01.v) + differential correspondence model vs pyformlang on accepts bits and, "
+               "for each transformer, certified language equivalence between the input and the automaton pyformlang returns, plus the advertised shape.")
+
+OPS = ["accepts", "accepts", "to_deterministic", "remove_epsilon_transitions", "minimize", "copy"]
 
 
 def generate(ctx):
-    n = 300 if ctx.tier == "quick" else 4000
+    n = 420 if ctx.tier == "quick" else 6000
     cases = []
     for i in range(n):
         names = ctx.rng.choice(["plain", "plain", "int", "adv"])
+        op = OPS[i % len(OPS)]
         spec = falib.rand_fa(ctx.rng, names=names)
-        cases.append({"op": "accepts", "fa": spec, "maxlen": 3 if ctx.tier == "quick" else 4})
+        cases.append({"op": op, "fa": spec, "maxlen": 3 if ctx.tier == "quick" else 4})
     return cases
 
 
-def _words(case):
-    syms = list(case["fa"]["symbols"]) + ["zz"]
-    return falib.words_upto(syms, case["maxlen"])
-
-
 def impl(case):
-    fa = falib.build_fa(case["fa"])
-    if case["op"] == "accepts":
-        return {"bits": [bool(fa.accepts(w)) for w in _words(case)]}
-    raise ValueError(case["op"])
+    return fa_engine.impl_case(case)
 
 
 def check_cases(ctx, cases):
-    obs = ctx.impl("c01", cases)
-    srcs = []
-    parts = chunks(list(range(len(cases))), 16)
-    for part in parts:
-        items = []
-        for i in part:
-            c = cases[i]
-            si = falib.Interner()
-            A = falib.coq_enfa(c["fa"], si)
-            ws = [[si(a) for a in w] for w in _words(c)]
-            items.append("(%s, %s)" % (A, cq(ws)))
-        srcs.append("From PFL Require Import Eval.FA.\nDefinition cases : list (enfa * list (list N)) := [\n%s].\n"
-                    "Eval vm_compute in (map (fun c => map (accepts (fst c)) (snd c)) cases).\n" % ";\n".join(items))
-    outs = ctx.coq(srcs)
-    for part, out in zip(parts, outs):
-        res = out[0]
-        for i, mbits in zip(part, res):
-            c, o = cases[i], obs[i]
-            ctx.count(len(mbits))
-            ctx.dist[c["fa"]["kind"] + "/" + c["fa"].get("profile", "?")] += 1
-            if falib.nontrivial_fa(c["fa"]):
-                ctx.nontriv(c["fa"])
-            ctx.sample({"fa": c["fa"], "words": len(mbits), "accepted": sum(mbits)})
-            if "bits" not in o:
-                ctx.fail("accepts-exception", c, {"impl": o})
-            elif o["bits"] != mbits:
-                ws = _words(c)
-                bad = [ws[j] for j in range(len(ws)) if o["bits"][j] != mbits[j]]
-                ctx.fail("accepts", c, {"words": bad[:3], "impl": [o["bits"][ws.index(b)] for b in bad[:3]], "hashseed": o.get("_hs")})
+    fa_engine.check_cases(ctx, "c01", cases)
+
+
+shrink_candidates = fa_engine.shrink_candidates
+KNOWN_PREDICATES = {"state_name_collision": fa_engine.make_name_collision_predicate("c01")}
